@@ -440,6 +440,15 @@ pub fn run_prop(cli: &Cli) -> i32 {
         "random routing scenarios: 0-6 discovered targets (IPv4/IPv6/v4-mapped, ports 0/1/25565/65535, duplicates, metadata) × scripted filter {identity, subset, reorder, empty, replaced list, error} × scripted strategy {element k, target not in the list, none, error} × discovery error × localization {echo of the question asked, random tables through the repository's FixedLocalizationAdapter with an independent fall-back oracle} × 11 client locales; distinct = combination of those classes",
     );
     report.assume("within one scenario the localization table and the client use the same spelling style (all lower case, or Java style pt_BR), so no two locales differ only in case: the statement does not say whether matching is case sensitive");
+    scenarios_into(cli, &mut report);
+    adapter_histories(cli, &mut report);
+    filter_chain_histories(cli, &mut report);
+    report.finish()
+}
+
+/// The routing scenarios, judged into `report` (also used by ./check C18 for the clause "what the
+/// strategy is offered is exactly what the filters left").
+pub fn scenarios_into(cli: &Cli, report: &mut Report) {
     let cases = generate(cli);
     let results = par_map(cases, cli.threads(), |_, case| {
         let run = run(&case.sc);
@@ -459,7 +468,4 @@ pub fn run_prop(cli: &Cli) -> i32 {
             report.violation(&fi.signature, &fi.what, w);
         }
     }
-    adapter_histories(cli, &mut report);
-    filter_chain_histories(cli, &mut report);
-    report.finish()
 }
